@@ -85,6 +85,10 @@ pub fn generate_op(seed: u64, instr: &str, thorough: bool) -> OpSc {
 }
 
 pub const NONFINITE: i64 = -1;
+/// Wall-clock limit of the state-size probe: every instruction of the unchanged tree needs at most
+/// ~20 ms on the largest probe state (10^5 elements) in the optimised-dev build; a reading above
+/// the limit is repeated up to three times and the fastest one counts.
+pub const BIG_WALL_MS: u64 = 250;
 
 fn special_float(k: usize) -> f32 {
     [f32::INFINITY, f32::NEG_INFINITY, f32::NAN, f32::MAX, f32::MIN, f32::MIN_POSITIVE][k % 6]
@@ -106,6 +110,7 @@ pub struct Cost {
     pub draws: u64,
     pub slept_us: u64,
     pub wall_ms: u64,
+    pub wall_us: u64,
     pub statebytes: u64,
 }
 
@@ -117,13 +122,14 @@ fn measure(sc: &OpSc, m: i64, iset: &mut InstructionSet) -> Result<Cost, (PanicI
 /// The only real-time reading of this engine must not be fooled by a stalled machine (a
 /// descheduled or frozen VM): a reading above the limit is repeated, the fastest one counts.
 fn measure_steady(sc: &OpSc, m: i64, big: usize, iset: &mut InstructionSet) -> Result<Cost, (PanicInfo, u64)> {
+    let limit = if big > 0 { BIG_WALL_MS } else { 1_000 };
     let mut best = measure_sized(sc, m, big, iset);
-    for _ in 0..2 {
+    for _ in 0..3 {
         let wall = match &best {
             Ok(c) => c.wall_ms,
             Err((_, w)) => *w,
         };
-        if wall <= 1_000 {
+        if wall <= limit {
             break;
         }
         let again = measure_sized(sc, m, big, iset);
@@ -182,14 +188,29 @@ fn measure_sized(sc: &OpSc, m: i64, big: usize, iset: &mut InstructionSet) -> Re
         st.name_stack.push(name.clone());
         st.name_stack.push(name);
         st.int_vector_stack.push(pushr::push::vector::IntVector::new((0..big as i32).map(|k| k % 97).collect()));
-        st.int_vector_stack.push(pushr::push::vector::IntVector::new((0..big as i32).map(|k| k % 89).collect()));
+        // (few distinct values: an operation per occurrence of a value shows its true cost)
+        st.int_vector_stack.push(pushr::push::vector::IntVector::new((0..big as i32).map(|k| k % 3).collect()));
         st.float_vector_stack.push(pushr::push::vector::FloatVector::new((0..big).map(|k| (k % 31) as f32).collect()));
         st.float_vector_stack.push(pushr::push::vector::FloatVector::new((0..big).map(|k| (k % 29) as f32).collect()));
         st.bool_vector_stack.push(pushr::push::vector::BoolVector::new((0..big).map(|k| k % 3 == 0).collect()));
         st.bool_vector_stack.push(pushr::push::vector::BoolVector::new((0..big).map(|k| k % 5 == 0).collect()));
         let flat = |salt: i32| Item::list((0..(big / 10) as i32).map(|k| Item::int(k ^ salt)).collect());
+        // vector literals inside code (printing / comparing code walks them)
+        let veclits = |salt: i32| {
+            Item::list(vec![
+                Item::floatvec(pushr::push::vector::FloatVector::new((0..big / 10).map(|k| (k as i32 ^ salt) as f32 * 0.5).collect())),
+                Item::intvec(pushr::push::vector::IntVector::new((0..(big / 10) as i32).map(|k| k ^ salt).collect())),
+                Item::boolvec(pushr::push::vector::BoolVector::new((0..big / 10).map(|k| k % 2 == 0).collect())),
+            ])
+        };
+        st.code_stack.push(veclits(1));
+        st.code_stack.push(veclits(2));
         st.code_stack.push(flat(1));
         st.code_stack.push(flat(2));
+        if sc.seed % 8 == 0 {
+            st.code_stack.push(veclits(3));
+            st.code_stack.push(veclits(4));
+        }
         st.exec_stack.push(flat(3));
         st.exec_stack.push(flat(4));
         // deep stacks, many bindings, a larger graph, a deeply nested item, full queues
@@ -218,7 +239,8 @@ fn measure_sized(sc: &OpSc, m: i64, big: usize, iset: &mut InstructionSet) -> Re
         }
         {
             let mut deep = Item::int(1);
-            for _ in 0..(big / 100) {
+            // (printing nests a string per level: keep the depth moderate, it is not what is scaled here)
+            for _ in 0..(big / 1000).min(200) {
                 deep = Item::list(vec![Item::int(2), deep]);
             }
             st.code_stack.push(deep.clone());
@@ -230,11 +252,16 @@ fn measure_sized(sc: &OpSc, m: i64, big: usize, iset: &mut InstructionSet) -> Re
                 pushr::push::vector::BoolVector::new(vec![true; 64]),
             ));
         }
-        // small scalar operands on top again
+        // the big low-cardinality vectors on top of their stacks again
+        st.int_vector_stack.push(pushr::push::vector::IntVector::new((0..big as i32).map(|k| (k % 8 == 7) as i32).collect()));
+        st.float_vector_stack.push(pushr::push::vector::FloatVector::new((0..big).map(|k| (k % 8 == 7) as i32 as f32).collect()));
+        // small scalar operands on top again (the top INTEGER is the frequent vector value)
         for k in 0..4 {
             st.int_stack.push(sc.small_ints[k % sc.small_ints.len()]);
             st.float_stack.push(0.5 + k as f32);
         }
+        st.int_stack.push(if (sc.seed / 4) % 4 == 3 { 1 } else { 0 });
+        st.float_stack.push(if (sc.seed / 4) % 4 == 3 { 1.0 } else { 0.0 });
     }
     st.exec_stack.push(Item::instruction(sc.instr.clone()));
     let statebytes = statecode::statecode(&st).len() as u64;
@@ -245,7 +272,8 @@ fn measure_sized(sc: &OpSc, m: i64, big: usize, iset: &mut InstructionSet) -> Re
     let r = caught(|| {
         PushInterpreter::step(&mut st, iset, &cache);
     });
-    let wall_ms = t0.elapsed().as_millis() as u64;
+    let wall_us = t0.elapsed().as_micros() as u64;
+    let wall_ms = wall_us / 1000;
     let after = alloc::snapshot();
     let core = simenv::end();
     drop(st);
@@ -256,6 +284,7 @@ fn measure_sized(sc: &OpSc, m: i64, big: usize, iset: &mut InstructionSet) -> Re
             draws: core.draws,
             slept_us: core.slept_us,
             wall_ms,
+            wall_us,
             statebytes,
         }),
         Err(p) => Err((p, wall_ms)),
@@ -351,22 +380,59 @@ pub fn execute_op(sc: &OpSc, iset: &mut InstructionSet) -> OpResult {
             }
         }
     }
-    // state-size scaling (a quarter of the layouts): "a modest function of the current state size"
+    // state-size scaling (a quarter of the layouts): "a modest function of the current state size".
+    // Bytes are judged against the bound at three sizes. Time is judged as a *ratio*: the same step
+    // on a state four times larger may take about four times as long; a step that takes nine times
+    // as long or more (and at least 200 ms) grows at least quadratically. The ratio does not
+    // depend on the speed of the machine; every reading is the fastest of several.
     if stats.outcome.is_empty() && sc.seed % 4 == 0 {
-        for big in [1_000usize, 10_000, 100_000] {
+        let fastest = |big: usize, iset: &mut InstructionSet, reps: usize| -> (Option<Cost>, u64) {
+            let mut best: (Option<Cost>, u64) = (None, u64::MAX);
+            for _ in 0..reps {
+                let (c, us) = match measure_sized(sc, 100, big, iset) {
+                    Ok(c) => {
+                        let us = c.wall_us;
+                        (Some(c), us)
+                    }
+                    Err((_p, w)) => (None, w * 1000),
+                };
+                if us < best.1 {
+                    best = (c, us);
+                }
+                if us < 2_000 {
+                    break; // far below anything that matters
+                }
+            }
+            best
+        };
+        let mut t_quarter = 0u64;
+        for big in [1_000usize, 50_000, 200_000] {
             stats.steps += 1;
-            let (cost, wall_ms) = match measure_steady(sc, 100, big, iset) {
-                Ok(c) => (Some(c.clone()), c.wall_ms),
-                Err((_p, w)) => (None, w),
-            };
+            let (cost, mut us) = fastest(big, iset, 3);
+            if big == 50_000 {
+                t_quarter = us;
+            }
+            let mut slow = big == 200_000 && us >= 200_000 && us > 9 * t_quarter.max(500);
+            if slow {
+                // doubt first: both readings again, more often
+                let (_, q2) = fastest(50_000, iset, 5);
+                let (_, u2) = fastest(200_000, iset, 5);
+                t_quarter = t_quarter.min(q2);
+                us = us.min(u2);
+                slow = us >= 200_000 && us > 9 * t_quarter.max(500);
+            }
             let bytes_over = cost.as_ref().map(|c| c.bytes > A_BYTES + B_FACTOR * c.statebytes).unwrap_or(false);
-            if wall_ms > 1_000 || bytes_over {
+            if slow || bytes_over {
                 let c = cost.unwrap_or_default();
                 vs.push(Violation {
                     property: "C15".into(),
                     class: "oracle:state-cost".into(),
                     site: format!("{}: the cost of one step grows faster than the state it works on", sc.instr),
-                    detail: format!("{} on a state whose top name / vectors hold {} characters / elements (code items {} points): {} ms of wall clock, {} bytes allocated for {} state bytes (bound 64 KiB + 64 x state bytes, 1 s)", sc.instr, big, big / 10, wall_ms, c.bytes, c.statebytes),
+                    detail: if slow {
+                        format!("{} on a state whose top name / vectors hold {} characters / elements takes {} us, on a state a quarter of that size {} us (ratio {:.1}; linear would be 4)", sc.instr, big, us, t_quarter, us as f64 / t_quarter.max(1) as f64)
+                    } else {
+                        format!("{} on a state whose top name / vectors hold {} characters / elements (code items {} points): {} bytes allocated for {} state bytes (bound 64 KiB + 64 x state bytes)", sc.instr, big, big / 10, c.bytes, c.statebytes)
+                    },
                     at_event: big as u64,
                 });
                 stats.outcome = "excess".into();
@@ -616,4 +682,108 @@ pub fn execute_growth(sc: &GrowthSc, iset: &mut InstructionSet, names: &[String]
     }
     stats.digest = statecode::digest(&st);
     GrowthResult { violations: vs, stats }
+}
+
+// ------------------------------------------------- (c) census of bound-crossing instructions
+
+/// One step of one instruction on a state whose CODE / EXEC items already hold exactly
+/// max-points-in-program points: which instructions can push an item past the bound? The
+/// census makes the set of `oracle:code-growth` sites a deterministic function of the tree
+/// (the random growth programs of (b) reach the same sites only by chance).
+#[derive(Serialize, Deserialize, Clone, Debug, PartialEq)]
+pub struct CrossSc {
+    pub seed: u64,
+    pub instr: String,
+    /// bit 0: BOOLEAN stack empty, bit 1: top items are atoms instead of lists, bit 2: small INTEGER on top is 0
+    pub layout: u8,
+}
+
+pub fn generate_cross(seed: u64, instr: &str, layout: u8) -> CrossSc {
+    CrossSc {
+        seed,
+        instr: instr.to_string(),
+        layout,
+    }
+}
+
+fn full_item(points: usize, salt: i32) -> Item {
+    // a flat list with exactly `points` points
+    Item::list((0..(points as i32 - 1)).map(|k| Item::int(k ^ salt)).collect())
+}
+
+pub fn execute_cross(sc: &CrossSc, iset: &mut InstructionSet) -> (Vec<Violation>, RunStats) {
+    let cfg = ConfigSpec::default_cfg();
+    let maxp = cfg.max_points_in_program.max(0) as usize;
+    let env = EnvScript::quiet(sc.seed);
+    simenv::begin(&env, Envelope::off(), &[], None);
+    let mut st = StateSpec::default().build(&cfg);
+    let atoms = sc.layout & 2 != 0;
+    for k in 0..3 {
+        st.code_stack.push(if atoms && k == 2 { Item::int(5) } else { full_item(maxp, k) });
+        st.exec_stack.push(if atoms && k == 2 { Item::int(6) } else { full_item(maxp, 10 + k) });
+    }
+    if sc.layout & 1 == 0 {
+        st.bool_stack.push(true);
+        st.bool_stack.push(false);
+    }
+    for v in [7, 2, 1, if sc.layout & 4 != 0 { 0 } else { 1 }] {
+        st.int_stack.push(v);
+    }
+    st.float_stack.push(0.5);
+    st.name_stack.push("x".into());
+    st.name_stack.push("y".into());
+    st.name_bindings.insert("x".into(), full_item(maxp, 20));
+    st.int_vector_stack.push(pushr::push::vector::IntVector::new(vec![1, 2, 3]));
+    st.int_vector_stack.push(pushr::push::vector::IntVector::new(vec![3, 3, 4]));
+    st.bool_vector_stack.push(pushr::push::vector::BoolVector::new(vec![true, false]));
+    st.float_vector_stack.push(pushr::push::vector::FloatVector::new(vec![1.0, 2.0]));
+    st.index_stack.push(pushr::push::index::Index { current: 0, destination: 5 });
+    st.exec_stack.push(Item::instruction(sc.instr.clone()));
+    let cache = iset.cache();
+    let r = caught(|| {
+        PushInterpreter::step(&mut st, iset, &cache);
+    });
+    simenv::end();
+    let mut vs = vec![];
+    let mut stats = RunStats {
+        steps: 1,
+        events: 1,
+        nontrivial: true,
+        ..Default::default()
+    };
+    if r.is_ok() {
+        let mut worst = 0usize;
+        let mut where_ = "";
+        for k in 0..st.code_stack.size() {
+            let z = Item::size(st.code_stack.get(k).unwrap());
+            if z > worst {
+                worst = z;
+                where_ = "CODE";
+            }
+        }
+        for k in 0..st.exec_stack.size() {
+            let z = Item::size(st.exec_stack.get(k).unwrap());
+            if z > worst {
+                worst = z;
+                where_ = "EXEC";
+            }
+        }
+        if worst > maxp {
+            vs.push(Violation {
+                property: "C15".into(),
+                class: "oracle:code-growth".into(),
+                site: format!("{}: an item on the {} stack exceeds max-points-in-program", sc.instr, where_),
+                detail: format!("one step of {} on CODE / EXEC items of exactly {} points leaves an item of {} points on the {} stack (layout {})", sc.instr, maxp, worst, where_, sc.layout),
+                at_event: 1,
+            });
+            stats.outcome = "crosses".into();
+        } else {
+            stats.outcome = "stays".into();
+        }
+    } else {
+        stats.outcome = "panic".into();
+    }
+    stats.digest = crate::rng::fnv1a(format!("{}{}{}", sc.instr, sc.layout, stats.outcome).as_bytes());
+    stats.log_hash = stats.digest;
+    (vs, stats)
 }
